@@ -124,6 +124,14 @@ func sendRequestToTarget(req *http.Request, httpsDefault bool) (*http.Response, 
 	}
 	slog.Debug("Sent request to target", "url", req.URL, "status", resp.Status)
 
+	if resp.StatusCode < 100 || resp.StatusCode > 999 {
+		// Not an HTTP status code (net/http reads "099" or "000" without complaint). It cannot be
+		// relayed: the server side refuses to write it and the handler would panic.
+		resp.Body.Close()
+		slog.Error("Target answered with an invalid status code", "url", req.URL, "status", resp.Status)
+		return nil, fmt.Errorf("%w: invalid status code %d", ErrSendRequestFailed, resp.StatusCode)
+	}
+
 	// Remove any hop-by-hop headers in the response that should not be forwarded to the client.
 	removeHopByHopHeaders(resp.Header)
 
